@@ -2,6 +2,7 @@
 # Developer aid: run checks against a scratch copy of /repo with one patch applied.
 # Usage: mutant.sh <patch-file|-R:commit> <prop> [<prop>...]   (prints the check output; scratch removed afterwards)
 P=$1; shift
+/verif/check.sh C10 quick >/dev/null 2>&1 # rebuilds bin/fvcheck when a source is newer
 S=/var/tmp/mut.$$
 rm -rf $S; mkdir -p $S/verif
 rsync -a --exclude .git --exclude 'fc/fc' /repo/ $S/repo/
